@@ -166,6 +166,20 @@ mut("C09-requant-extends", SEQ, "sequence_to_add.quantise_note_lengths(do_not_ex
 mut("C09-requant-always", SEQ, "                if quantise_note_lengths:\n                    sequence_to_add", "                if True:\n                    sequence_to_add", ["C09"])
 mut("C09-default-3-4", SEQ, "        current_ts_numerator = 4\n        current_ts_denominator = 4\n        current_key = None", "        current_ts_numerator = 3\n        current_ts_denominator = 4\n        current_key = None", ["C09"])
 
+# C01 / tokeniser
+mut("C01-cur-time-bar-not-reset", TOK, "                    if insert_bar_token:\n                        tokens.append(TokenisationPrefixes.BAR.value)\n                    cur_time_bar = 0\n", "                    if insert_bar_token:\n                        tokens.append(TokenisationPrefixes.BAR.value)\n", ["C01"])
+mut("C01-greedy-rest-gt", TOK, "rest_value = next(step_size for step_size in reversed(self.step_sizes) if nxt_rest >= step_size)", "rest_value = next(step_size for step_size in reversed(self.step_sizes) if nxt_rest > step_size or step_size == self.step_sizes[0])", ["C01"])
+mut("C01-detok-bar-adds-total", TOK, "                    cur_time += cur_bar_capacity_remaining\n                    cur_time_bar = 0\n                    cur_bar_capacity_remaining = cur_bar_capacity_total\n\n                    for sequence in sequences:", "                    cur_time += cur_bar_capacity_total\n                    cur_time_bar = 0\n                    cur_bar_capacity_remaining = cur_bar_capacity_total\n\n                    for sequence in sequences:", ["C01"])
+mut("C01-value-format-03", TOK, '                    token += f"{TokenisationPrefixes.VALUE.value}_{msg_value:02}-"', '                    token += f"{TokenisationPrefixes.VALUE.value}_{msg_value:03}-"', ["C01", "C02"])
+mut("C01-running-wrong-field", TOK, "if not self.flag_fuse_value and (msg_value != prv_value or not self.flag_running_values):", "if not self.flag_fuse_value and (msg_value != prv_velocity or not self.flag_running_values):", ["C01"])
+mut("C01-running-velocity-wrong-field", TOK, "if not self.flag_fuse_velocity and (msg_velocity != prv_velocity or not self.flag_running_values):", "if not self.flag_fuse_velocity and (msg_velocity != prv_value or not self.flag_running_values):", ["C01"])
+mut("C01-bin-off-by-one", TOK, "msg_velocity = self.velocity_bins[bin_velocity(event_pairing[0].velocity, self.velocity_bins)]", "msg_velocity = self.velocity_bins[min(len(self.velocity_bins) - 1, bin_velocity(event_pairing[0].velocity, self.velocity_bins) + 1)]", ["C01"])
+mut("C01-running-track-not-updated", TOK, "                prv_track = msg_channel\n                prv_value = msg_value", "                prv_value = msg_value", [])  # equivalent: only redundant trk tokens
+mut("C01-detok-default-value", TOK, "        prv_value = 24\n        prv_velocity = 127\n\n        for token in tokens:\n            token_parts = sorted(self._split_token(token),\n                                 key=lambda part: (\n                                     self.sort_order.index(part[0]) if part[0] in self.sort_order else -1))\n            main_parts = [part[0] for part in token_parts]\n\n            for i, main_part", "        prv_value = 24\n        prv_velocity = 127\n\n        for token in tokens:\n            token_parts = sorted(self._split_token(token),\n                                 key=lambda part: (\n                                     self.sort_order.index(part[0]) if part[0] in self.sort_order else -1), reverse=True)\n            main_parts = [part[0] for part in token_parts]\n\n            for i, main_part", ["C01"])
+mut("C01-ts-capacity-not-reset", TOK, "                cur_bar_capacity_total = int(\n                    self.ppqn * 4 * cur_time_signature_numerator / cur_time_signature_denominator)\n                cur_bar_capacity_remaining = cur_bar_capacity_total\n\n                tokens.append(", "                cur_bar_capacity_total = int(\n                    self.ppqn * 4 * cur_time_signature_numerator / cur_time_signature_denominator)\n\n                tokens.append(", ["C01"])
+mut("C01-pitch-range-exclusive", TOK, "if not (self.pitch_range[0] <= msg_note <= self.pitch_range[1]):", "if not (self.pitch_range[0] <= msg_note < self.pitch_range[1]):", ["C01"])
+mut("C01-rest-max-step-ge", TOK, "                if nxt_rest > self.step_sizes[-1]:\n                    rest_value = self.step_sizes[-1]", "                if nxt_rest > self.step_sizes[-1] + 1:\n                    rest_value = self.step_sizes[-1]", [])
+
 
 def run(cmd, env):
     p = subprocess.run(cmd, cwd=ROOT, env=env, capture_output=True, text=True)
